@@ -46,7 +46,7 @@ def model_line(cfg, P, R, script, rtox, timeout, release):
         return '-' if x is None else str(x)
     sc = '.'.join(a + b for a, b in script) or '-'
     ps = ','.join((bytes(p).hex() or '.') for p in P) or '-'
-    app = ','.join('%d:%s' % ((rtox[k] if rtox and k < len(rtox) else 0), (bytes(r).hex() or '.'))
+    app = ','.join('%s:%s' % ('.'.join(map(str, air.rtox_values(rtox, k))) or '0', (bytes(r).hex() or '.'))
                    for k, r in enumerate(R)) or '-'
     rel = {True: 'R', False: 'D', None: '-'}[release]
     return 'conv %d %s %s %d %s %d %d %s %s %s %s' % (final_brty(cfg) == '106A', f(did), f(nad), imiu, f(tdid), tmiu,
@@ -74,6 +74,10 @@ def pdu_kind(h, brty):
     if b[2] in (6, 7):
         return {0: 'INF', 1: 'INF', 4: 'ACK', 5: 'NAK', 8: 'ATN', 9: 'RTOX'}.get(b[3] >> 4, 'fmt%d' % (b[3] >> 4))
     return {8: 'DSL', 9: 'DSL', 10: 'RLS', 11: 'RLS'}.get(b[2], 'other')
+
+
+def flat_rtox(rtox):
+    return [x for k in range(len(rtox or [])) for x in air.rtox_values(rtox, k)]
 
 
 def sparse(script):
@@ -137,7 +141,7 @@ class Runner(object):
         ck = self.ck
         valid_cfg = cfg['did'] is None or 1 <= cfg['did'] <= 14
         valid_app = all(len(p) > 0 for p in P) and all(len(r) > 0 for r in R) and \
-            all(0 <= x < 60 for x in (rtox or []))
+            all(0 <= x < 60 for x in flat_rtox(rtox))
         # no frame exceeds the payload size announced by the receiver
         for d, h, fate, btx, brx, rnd in o['frames']:
             n = len(h) // 2 - 1 - (1 if btx == '106A' else 0)
@@ -155,7 +159,7 @@ class Runner(object):
             self.viol('foreign-data:initiator', 'initiator application received data that is not a prefix of what '
                          'the target passed to exchange()', dict(case, got=o['ini']))
         if got_t != exp_t[:len(got_t)]:
-            self.viol('foreign-data:target:rtox=%s' % bool(rtox and any(rtox)),
+            self.viol('foreign-data:target:rtox=%s' % bool(flat_rtox(rtox)),
                          'target application received data that is not a prefix of what the initiator '
                          'passed to exchange()', dict(case, got=o['tgt']))
         for side, res in (('initiator', o['ini']), ('target', o['tgt'] + o['tgt_rtox'])):
@@ -168,9 +172,13 @@ class Runner(object):
             self.viol('crash:deactivate', 'Initiator.deactivate raised ' + o['ini_deactivate'], case)
         # transparent recovery of absorbable scripts
         nfaults = sum(1 for f in script if f != ('D', 'D'))
-        # (time-out extension is excluded from this demand: the NFC-DEP rules make an RTOX response to
-        # NACK/ATN a protocol error, so a lost or corrupted RTOX PDU is not recoverable by design)
-        if valid_cfg and len(R) >= len(P) and sparse(script) and timeout >= 2 and not any(rtox or []):
+        # (with time-out extension: C04_dep_exact_rtox - no corrupted response, time-out >= 60 RWT, at most three extensions per
+        # response; a corrupted response is then not recoverable by design: RTOX answered to NAK is a protocol error)
+        fr = flat_rtox(rtox)
+        per = [len(air.rtox_values(rtox, k)) for k in range(len(rtox or []))]
+        absorbable = sparse(script) and ((not fr and timeout >= 2) or
+                                         (fr and timeout >= 60 and max(per) <= 3 and not any(f == ('D', 'C') for f in script)))
+        if valid_cfg and len(R) >= len(P) and absorbable:
             exact = o['ini'] == exp_i[:len(P)] and o['tgt'][:len(P)] == exp_t
             if not exact:
                 # own key for the class repaired by c04-nak-ack-retransmit-chained (request_retransmission rejected a
@@ -341,6 +349,16 @@ def main():
     three = {'cfg': cfg_(), 'P': [b'\x01', b'\x02', b'\x03'], 'R': [b'\x11', b'\x12', b'\x13']}
     run.history([one, one], 'target', kind='corpus')
     run.history([three, one], 'initiator', kind='corpus')
+    # time-out extension: three extensions in a row, lost RTOX request / lost RTOX response / lost information PDU right after
+    # the handshake (recovered), a fourth extension (TimeoutError), a corrupted RTOX response (ProtocolError by design)
+    rx = cfg_(brty='106A', did=5)
+    run.conv(rx, [b'\x01' * 70, b'\x02'], [b'\x11' * 125, b'\x12'], [], rtox=[[5, 1, 59], [2]], timeout=100, kind='corpus')
+    run.conv(rx, [b'\x01' * 70, b'\x02'], [b'\x11' * 125, b'\x12'],
+             [('D', 'D'), ('D', 'D'), ('L', 'D'), ('D', 'D'), ('D', 'D'), ('D', 'L'), ('D', 'D'), ('D', 'D'), ('D', 'D'), ('D', 'D'), ('D', 'D'), ('D', 'L')],
+             rtox=[[5, 1, 59], [2]], timeout=100, kind='corpus')
+    run.conv(cfg_(), [b'\x01'], [b'\x02'], [('D', 'D'), ('D', 'L')], rtox=[[3]], timeout=100, kind='corpus')
+    run.conv(cfg_(), [b'\x01'], [b'\x02'], [], rtox=[[1, 1, 1, 1]], timeout=100, kind='corpus')
+    run.conv(cfg_(), [b'\x01'], [b'\x02'], [('D', 'C')], rtox=[[5]], timeout=100, kind='corpus')
     # invalid arguments (compared with the model, not judged): empty payload / empty response
     run.conv(cfg_(), [b''], [b'\x01'], [], kind='argument')
     run.conv(cfg_(), [b'\x01'], [b''], [], kind='argument')
@@ -392,6 +410,7 @@ def main():
         (cfg_(brty='106A', did=5, nad=7), [59 + 1, 3], [60 + 1, 2], None),
         (cfg_(brty='424F', did=1), [1, 2, 1, 1, 1], [1, 1, 2, 1, 1], None),                 # beyond the PNI wrap
         (cfg_(brty='106A'), [62, 3, 2, 1], [63, 2, 1, 1], [0, 1, 0, 2]),                    # with RTOX
+        (cfg_(brty='424F', did=2), [1, 62], [1, 63], [[2, 1, 3], [1, 2]]),                  # several extensions in a row
     ]
     if not quick:
         short += [
@@ -446,7 +465,9 @@ def main():
             return max(1, rng.choice([1, 2, m - 1, m, m + 1, 2 * m - 1, 2 * m, 2 * m + 1, 3 * m, rng.randrange(1, 3 * m)]))
         P = [bytes([rng.randrange(256)]) * size(mi) for _ in range(n)]
         R = [bytes([rng.randrange(256)]) * size(mt) for _ in range(rng.choice([n, n, n, n, max(0, n - 1)]))]
-        rt = [rng.choice([0, 0, 0, 1, 5, 59, 60]) for _ in range(n)] if rng.random() < 0.25 else None
+        rt = None
+        if rng.random() < 0.3:
+            rt = [[rng.choice([1, 2, 5, 59, 60]) for _ in range(rng.choice([0, 0, 1, 1, 2, 3, 4]))] for _ in range(n)]
         dens = rng.choice([0.03, 0.08, 0.15, 0.3, 0.6])
         if rng.random() < 0.4:
             # sparse script: isolated single faults
@@ -458,7 +479,7 @@ def main():
                 i = len(s)
         else:
             s = [F[rng.randrange(1, len(F))] if rng.random() < dens else F[0] for _ in range(rng.randrange(0, 50))]
-        run.conv(cfg, P, R, s, rtox=rt, timeout=rng.choice([1, 2, 3, 8, 8, 20, 130]), release=rng.choice([True, False, None]),
+        run.conv(cfg, P, R, s, rtox=rt, timeout=rng.choice([1, 2, 3, 8, 8, 20, 60, 130]), release=rng.choice([True, False, None]),
                  kind='random')
         if it % 500 == 499:
             run.flush()
